@@ -195,6 +195,24 @@ M = [
     ("seed-C05-m6", "patch", "seeded/C05-m6/patch.diff", "", "", 0),
     ("seed-C06-m3", "patch", "seeded/C06-m3/patch.diff", "", "", 0),
     ("seed-C07-m1", "patch", "seeded/C07-m1/patch.diff", "", "", 0),
+    # ---- pixman-region.c: validate placement, shortcut tests, pixman_op decisions, contains_rectangle step
+    ("seed-C05-m1", "patch", "seeded/C05-m1/patch.diff", "", "", 0),
+    ("seed-C05-m3", "patch", "seeded/C05-m3/patch.diff", "", "", 0),
+    ("seed-C05-m4", "patch", "seeded/C05-m4/patch.diff", "", "", 0),
+    ("seed-C06-m1", "patch", "seeded/C06-m1/patch.diff", "", "", 0),
+    ("seed-C06-m2", "patch", "seeded/C06-m2/patch.diff", "", "", 0),
+    ("seed-C07-m2", "patch", "seeded/C07-m2/patch.diff", "", "", 0),
+    ("seed-C07-m4", "patch", "seeded/C07-m4/patch.diff", "", "", 0),
+    ("regv-same-band", "pixman/pixman-region.c", "validate", "box->y1 == ri_box->y1 && box->y2 == ri_box->y2", "box->y1 == ri_box->y1 && box->y2 <= ri_box->y2", 0),
+    ("regv-merge", "pixman/pixman-region.c", "validate", "if (box->x1 <= ri_box->x2)", "if (box->x1 < ri_box->x2)", 0),
+    ("regv-newband", "pixman/pixman-region.c", "validate", "else if (box->y1 >= ri_box->y2)", "else if (box->y1 > ri_box->y2)", 0),
+    ("regop-above", "pixman/pixman-region.c", "pixman_op", "if (r1y1 < r2y1)", "if (r1y1 <= r2y1)", 0),
+    ("regop-overlap", "pixman/pixman-region.c", "pixman_op", "if (ybot > ytop)", "if (ybot >= ytop)", 0),
+    ("regop-done", "pixman/pixman-region.c", "pixman_op", "if (r2->y2 == ybot)", "if (r2->y2 >= ybot)", 0),
+    ("regop-coalesce", "pixman/pixman-region.c", None, "if (cur_band - prev_band == new_reg->data->numRects - cur_band)", "if (cur_band - prev_band <= new_reg->data->numRects - cur_band)", 0),
+    ("reg-inter-extentcheck", "pixman/pixman-region.c", "PREFIX (_intersect)", "!EXTENTCHECK (&reg1->extents, &reg2->extents)", "EXTENTCHECK (&reg1->extents, &reg2->extents)", 0),
+    ("reg-union-subsumes", "pixman/pixman-region.c", "PREFIX (_union)", "if (!reg1->data && SUBSUMES (&reg1->extents, &reg2->extents))", "if (!reg2->data && SUBSUMES (&reg1->extents, &reg2->extents))", 0),
+    ("reg-contains-x", "pixman/pixman-region.c", "PREFIX (_contains_rectangle)", "if (pbox->x2 <= x)\n\t    continue;", "if (pbox->x2 < x)\n\t    continue;", 0),
     # ---- fail closed: constructs outside the accepted subset
     ("unsupported-goto", "pixman/pixman-matrix.c", "fixed_112_16_to_fixed_48_16", "*clampflag = TRUE;", "*clampflag = TRUE; goto out;", 0),
     ("unsupported-loop", "pixman/pixman-trap.c", "pixman_edge_step", "e->x += n * e->stepx;", "while (n > 3) n--; e->x += n * e->stepx;", 0),
